@@ -611,7 +611,33 @@ class Interp:
             return self.mcall(o, e[2], args, e, env)
         if k == "ctor":
             d = self.models[e[1]]
-            given = {n: self.ev(v, env) for n, v in e[2]}
+            written = [n for n, _ in e[2]]
+            declared = [fname for fname, _, _ in d["fields"] if fname in written]
+            if written != declared:
+                # keyword arguments written in another order than the fields are declared: the order in which they are evaluated is
+                # not documented, so a constructor with two or more arguments that print or fail is outside the reference's domain
+                given, effectful, first_panic = {}, 0, None
+                for n, v in e[2]:
+                    mark = len(self.out)
+                    try:
+                        val = self.ev(v, env)
+                        if first_panic is None:
+                            given[n] = val
+                    except IncanPanic as p:
+                        effectful += 1
+                        if first_panic is None:
+                            first_panic = p
+                            kept = len(self.out)
+                        continue
+                    if len(self.out) != mark:
+                        effectful += 1
+                if effectful >= 2:
+                    raise OutOfDomain("evaluation order of re-ordered constructor arguments with effects")
+                if first_panic is not None:
+                    del self.out[kept:]
+                    raise first_panic
+            else:
+                given = {n: self.ev(v, env) for n, v in e[2]}
             f = {}
             for fname, fty, fdef in d["fields"]:
                 if fname in given:
